@@ -7,6 +7,7 @@ import (
 	"io"
 	"net"
 	"runtime/debug"
+	"strings"
 	"time"
 
 	"github.com/gofiber/fiber/v3"
@@ -14,16 +15,26 @@ import (
 	"github.com/valyala/fasthttp/fasthttputil"
 )
 
-// Do dispatches one request in process (no wire parsing). uri must be a path (+ optional query) not starting with "//".
+// Do dispatches one request in process (no wire parsing). uri is a path (+ optional query).
 func Do(app *fiber.App, method, uri string, hdr ...string) *fasthttp.RequestCtx {
 	return DoAddr(app, nil, method, uri, nil, hdr...)
+}
+
+// setURI: a request target that starts with two slashes is a path on the wire ("GET //x HTTP/1.1"), but SetRequestURI
+// would read it as a scheme-relative reference (host x): spell the absolute form instead.
+func setURI(req *fasthttp.Request, uri string) {
+	if strings.HasPrefix(uri, "//") {
+		req.SetRequestURI("http://vk.local" + uri)
+		return
+	}
+	req.SetRequestURI(uri)
 }
 
 // DoAddr is Do with a peer address and a body.
 func DoAddr(app *fiber.App, remote net.Addr, method, uri string, body []byte, hdr ...string) *fasthttp.RequestCtx {
 	var req fasthttp.Request
 	req.Header.SetMethod(method)
-	req.SetRequestURI(uri)
+	setURI(&req, uri)
 	for i := 0; i+1 < len(hdr); i += 2 {
 		req.Header.Add(hdr[i], hdr[i+1])
 	}
@@ -203,7 +214,7 @@ func (r *Reuse) DoBody(app *fiber.App, method, uri string, body []byte, hdr ...s
 	}
 	var req fasthttp.Request
 	req.Header.SetMethod(method)
-	req.SetRequestURI(uri)
+	setURI(&req, uri)
 	for i := 0; i+1 < len(hdr); i += 2 {
 		req.Header.Add(hdr[i], hdr[i+1])
 	}
